@@ -4801,10 +4801,10 @@ class ParseCtx:
         Parse the hex binary string (with quotes too)
         """
 
-        contents = [x for x in binary_string[1:-1] if x in string.hexdigits]
-        
-        if len(contents) % 2 != 0:
-            raise ValueError("binary literal must have even number of characters")
+        groups = binary_string[1:-1].split()
+        if any(len(group) % 2 != 0 or any(x not in string.hexdigits for x in group) for group in groups):
+            raise ValueError("binary literal must consist of pairs of hex digits (blanks may separate them)")
+        contents = "".join(groups)
 
         result = ""
 
